@@ -23,6 +23,8 @@ pub struct GenCfg {
     pub pragma_mode: u8,
     /// each top-level head / member head / statement starts a new line (declaration heads on one line)
     pub newline_items: bool,
+    /// 0 = general; 1 = declaration-heavy (C06); 2 = mutability-heavy (C08)
+    pub focus: u8,
 }
 
 impl Default for GenCfg {
@@ -36,6 +38,7 @@ impl Default for GenCfg {
             undecided: false,
             pragma_mode: 0,
             newline_items: true,
+            focus: 0,
         }
     }
 }
@@ -306,6 +309,16 @@ impl<'t, 'd> Gen<'t, 'd> {
 
     fn top_item(&mut self) {
         self.nl();
+        if self.cfg.focus != 0 {
+            match self.t.below(10) {
+                0..=6 => self.contract(),
+                7 => self.free_function(),
+                8 => self.struct_def(),
+                _ => self.using(),
+            }
+            self.nl();
+            return;
+        }
         match self.t.below(16) {
             0 | 1 | 2 | 3 | 4 => self.contract(),
             5 => self.free_function(),
@@ -467,6 +480,27 @@ impl<'t, 'd> Gen<'t, 'd> {
     }
 
     fn member(&mut self, interface: bool) {
+        if self.cfg.focus == 1 {
+            match self.t.below(16) {
+                0..=6 => self.function(interface),
+                7..=10 => self.state_var(),
+                11 | 12 => self.constructor(),
+                13 => self.modifier(),
+                14 => self.fallback(),
+                _ => self.event_def(),
+            }
+            return;
+        }
+        if self.cfg.focus == 2 {
+            match self.t.below(16) {
+                0..=6 => self.state_var(),
+                7..=11 => self.function(interface),
+                12 | 13 => self.constructor(),
+                14 => self.modifier(),
+                _ => self.fallback(),
+            }
+            return;
+        }
         match self.t.below(20) {
             0 | 1 | 2 | 3 | 4 => self.function(interface),
             5 | 6 | 7 | 8 => self.state_var(),
@@ -496,7 +530,8 @@ impl<'t, 'd> Gen<'t, 'd> {
             self.w(";");
             return;
         }
-        match self.t.below(10) {
+        let roll = if self.cfg.focus == 2 { 2 + self.t.below(16) } else { self.t.below(10) };
+        match roll {
             0 => {
                 self.w("mapping (");
                 self.ty(1);
@@ -670,7 +705,37 @@ impl<'t, 'd> Gen<'t, 'd> {
         self.w("constructor");
         self.param_list(true);
         self.fn_attributes(true);
-        self.block(1);
+        if self.cfg.focus == 2 {
+            self.w("{");
+            let vars = self.state_vars.clone();
+            for v in vars {
+                if self.t.chance(130) {
+                    self.nl();
+                    self.w(&v);
+                    self.wp(&["=", "=", "=", "=", "+=", "|="]);
+                    match self.t.below(8) {
+                        0 => self.w("\"text\""),
+                        1 => self.w("abi . encode ( a )"),
+                        2 => self.w("bytes ( \"x\" )"),
+                        3 => {
+                            let p = self.name();
+                            self.w(&p);
+                        }
+                        _ => self.expr(3, 14),
+                    }
+                    self.w(";");
+                }
+            }
+            let n = self.t.below(3);
+            for _ in 0..n {
+                self.nl();
+                self.stmt(2);
+            }
+            self.nl();
+            self.w("}");
+        } else {
+            self.block(1);
+        }
         self.params.clear();
         self.locals.clear();
     }
@@ -808,7 +873,8 @@ impl<'t, 'd> Gen<'t, 'd> {
 
     fn expr_stmt_inner(&mut self, depth: u32) {
         // expression statements: bias to assignments, calls and inc/dec
-        match self.t.below(8) {
+        let roll = if self.cfg.focus == 2 { self.t.below(5) } else { self.t.below(8) };
+        match roll {
             0 | 1 => {
                 self.lvalue(depth);
                 self.wp(&["=", "=", "=", "+=", "-=", "*=", "/=", "%=", "|=", "&=", "^=", "<<=", ">>="]);
